@@ -202,6 +202,35 @@ impl Ctx {
             leaf_nontrivial: false,
         }
     }
+    /// A context without crash-file / hook side effects, for nested use.
+    pub fn new_secondary(opts: Opts) -> Ctx {
+        let mut c = Ctx {
+            opts,
+            next_leaf: 0,
+            cur_leaf: 0,
+            executed: 0,
+            transitions: 0,
+            traces_ok: 0,
+            viol_total: 0,
+            states: HashSet::new(),
+            states_direct: 0,
+            nontrivial: 0,
+            classes: BTreeMap::new(),
+            violations: BTreeMap::new(),
+            samples: Vec::new(),
+            bounds: Vec::new(),
+            probes: Vec::new(),
+            digests: None,
+            tx: H64::new(),
+            shadow: true,
+            start: std::time::Instant::now(),
+            det_checked: 0,
+            det_limit: 0,
+            leaf_nontrivial: false,
+        };
+        c.opts.verbose = false;
+        c
+    }
     pub fn tier(&self) -> Tier {
         self.opts.tier
     }
